@@ -1,81 +1,43 @@
 (* C07 (RTPS message part) — the decoder is total and its memory / work are linear.
-   This file covers RtpsMessageRead::try_from only; the discovery parameter-list decoders and
-   the XCDR payload decoder named in the property are covered by other checks.
-   Statements over Wire/WireModel.v:
+   This file covers RtpsMessageRead::try_from; the discovery parameter-list decoders of the
+   property are covered by the theorems C13_decode_total_* (Props/C13.v), the XCDR payload
+   decoder by its own check.
+   Statements over Wire/WireModel.v (the code after the repairs 221c5f8 and 0cb9fa7):
      parse_message bytes    RtpsMessageRead::try_from (header, submessage loop with MAX_SUBMESSAGES,
-                            the 12 submessage parsers), debug profile
+                            each parser handed exactly the bytes of its submessage), debug profile
      message_cost bytes     its second output: bytes copied by read_exact + loop iterations +
                             bytes requested from the allocator (modelled struct sizes)
-     msg_mem l              heap bytes held by the decoded submessages l
-     C07_known_fnset        a NACK_FRAG reached by the loop whose FragmentNumberSet is complete on the
-                            wire and has numBits > 256 or a set bit i with base + i > u32::MAX
-     C07_known_overread     an INFO_REPLY reached by the loop with 24 * numLocators > submessage_length
-     C07_known_rescan       a DATA / DATA_FRAG with submessage_length 0 reached by the loop whose
-                            parse returns an error *)
+     msg_mem l              heap bytes held by the decoded submessages l *)
 From DustDDS Require Import Base.Machine Base.Bytes Wire.WireModel Wire.WireProofs Wire.WireTotalProofs
   Wire.WireMemProofs Wire.WireCostProofs.
 Open Scope Z_scope.
 
-(* for EVERY list of integers (bytes or not) outside the recorded class: a value or an error *)
-Theorem C07_parse_message_total : forall bytes,
-  C07_known_fnset bytes = false -> is_panic (parse_message bytes) = false.
+(* for EVERY input (any list of integers, bytes or not): a value or an error, never a panic *)
+Theorem C07_parse_message_total : forall bytes, is_panic (parse_message bytes) = false.
 Proof. exact parse_message_total. Qed.
 
-(* and the class is exactly the failing family: inside it the decoder always panics *)
-Theorem C07_panic_class_exact : forall bytes,
-  C07_known_fnset bytes = true -> is_panic (parse_message bytes) = true.
-Proof. exact parse_message_panics_in_class. Qed.
-
-(* witness (finding C07-fragset-numbits): an 84-byte datagram, NACK_FRAG numBits = 288,
-   index 8 of the 8-word bitmap at submessage_elements.rs:151 *)
-Theorem C07_fragset_panics :
-  len nackfrag_288 = 84 /\ bytes_ok nackfrag_288 /\ C07_known_fnset nackfrag_288 = true /\
-  parse_message nackfrag_288 = Panic P_FNSET_INDEX.
-Proof. exact fragset_panics. Qed.
-
-(* memory held by the result: at most 26 bytes per input byte, for every byte string outside
-   the INFO_REPLY over-read class *)
-Theorem C07_decoded_memory_linear : forall bytes h l, bytes_ok bytes ->
-  C07_known_overread bytes = false -> parse_message bytes = Ok (h, l) -> msg_mem l <= 26 * len bytes.
+(* memory held by the result: at most 26 bytes per input byte, for every input *)
+Theorem C07_decoded_memory_linear : forall bytes h l,
+  parse_message bytes = Ok (h, l) -> msg_mem l <= 26 * len bytes.
 Proof. exact decoded_memory_linear. Qed.
 
-(* copy + loop + allocation cost: at most 400 per input byte (+64), for every byte string
-   outside the over-read and rescan classes (the allocation of a single try_from call is
-   bounded by its cost, hence peak memory too) *)
-Theorem C07_message_cost_linear : forall bytes, bytes_ok bytes ->
-  C07_known_overread bytes = false -> C07_known_rescan bytes = false ->
-  0 <= message_cost bytes <= 400 * len bytes + 64.
+(* copy + loop + allocation cost: at most 400 per input byte (+64), for every input (the
+   allocation of one try_from call is bounded by its cost, hence peak memory too) *)
+Theorem C07_message_cost_linear : forall bytes, 0 <= message_cost bytes <= 400 * len bytes + 64.
 Proof. exact message_cost_linear. Qed.
 
-(* inside the classes the bounds are false (findings C07-inforeply-overread, C07-data-rescan) *)
-Theorem C07_overread_superlinear :
-  len overread_witness = 2068 /\ bytes_ok overread_witness /\ C07_known_overread overread_witness = true /\
-  is_ok (parse_message overread_witness) = true /\ decoded_mem overread_witness = 281608 /\
-  26 * len overread_witness < decoded_mem overread_witness.
-Proof. exact overread_superlinear. Qed.
-
-Theorem C07_rescan_superlinear :
-  len rescan_witness = 1044 /\ bytes_ok rescan_witness /\ C07_known_rescan rescan_witness = true /\
-  C07_known_overread rescan_witness = false /\ is_ok (parse_message rescan_witness) = true /\
-  decoded_mem rescan_witness = 0 /\
-  COST_C * len rescan_witness + COST_K < message_cost rescan_witness.
-Proof. exact rescan_superlinear. Qed.
-
-(* non-vacuity: a mutated datagram with three submessages is outside all classes and decodes *)
+(* non-vacuity and regression: a datagram with three submessages decodes; the 84-byte
+   NACK_FRAG with numBits = 288 that used to panic is skipped (InvalidData inside) *)
 Example C07_nonvacuous :
-  let b := hdr20 ++ [9;1;8;0; 4;0;0;0; 5;0;0;0] ++ [18;1;28;0; 1;2;3;4; 6;7;8;9; 0;0;0;0; 9;0;0;0; 2;0;0;0; 0;1;0;0] ++
+  let hdr20 := [82; 84; 80; 83; 2; 3; 1; 2; 0; 1; 2; 3; 4; 5; 6; 7; 8; 9; 10; 11] in
+  let b := hdr20 ++ [9;1;8;0; 4;0;0;0; 5;0;0;0] ++ [18;1;28;0; 1;2;3;4; 6;7;8;9; 0;0;0;0; 9;0;0;0; 2;0;0;0; 0;0;0;0; 7;0;0;0] ++
            [21;7;0;0; 0;0;16;0; 1;2;3;4; 6;7;8;9; 0;0;0;0; 5;0;0;0; 2;0;4;0; 1;2;3;4; 1;0;0;0; 170;187] in
-  bytes_ok b /\ C07_known_fnset b = false /\ C07_known_overread b = false /\ C07_known_rescan b = false /\
-  is_ok (parse_message b) = true.
-Proof.
-  cbv zeta. split; [apply bytes_okb_true; vm_compute; reflexivity|].
-  split; [vm_compute; reflexivity|]. split; [vm_compute; reflexivity|]. split; vm_compute; reflexivity.
-Qed.
+  let nf288 := hdr20 ++ [18; 1; 60; 0] ++ [1;2;3;4] ++ [6;7;8;9] ++ [0;0;0;0; 9;0;0;0] ++ [2;0;0;0] ++ [32;1;0;0] ++
+               repeat 0 32 ++ [7;0;0;0] in
+  (match parse_message b with Ok (_, l) => len l | _ => -1 end) = 3 /\
+  len nf288 = 84 /\ (match parse_message nf288 with Ok (_, l) => len l | _ => -1 end) = 0.
+Proof. cbv zeta. split; [vm_compute; reflexivity|]. split; vm_compute; reflexivity. Qed.
 
 Print Assumptions C07_parse_message_total.
-Print Assumptions C07_panic_class_exact.
-Print Assumptions C07_fragset_panics.
 Print Assumptions C07_decoded_memory_linear.
 Print Assumptions C07_message_cost_linear.
-Print Assumptions C07_overread_superlinear.
-Print Assumptions C07_rescan_superlinear.
